@@ -735,10 +735,12 @@ pub fn generate(r: &mut Rng, max_calls: usize, i: usize) -> Prog {
             g.push(line, 1, &[]);
         }
     }
-    if g.last_perm_kind == 2 {
+    if g.last_perm_kind == 2 && (g.provable || g.r.chance(1, 2)) {
         // close the Merkle chain: the accumulator exposure needs a `new_start` successor
         g.perm_row(false, true, false);
     }
+    // otherwise (audit-only programs) the chain's last row is the table's last real row: its `new_start` successor
+    // is the first padding row, or — when the row count is a power of two — row 0 through the cyclic wrap
     Prog { cfg: cfg.into(), lines: g.lines, provable }
 }
 
@@ -762,6 +764,11 @@ pub fn fixed_programs() -> Vec<(Prog, &'static str)> {
         (p("bb4", true, &["pub", "const 2", "ctl 1", "decomp 0", "mul 2 1", "add 1 2", "mul 1 3", "mul 1 4", "mul 1 5"]), "coeff-two-creators-bb4"),
         // F5 family: a capacity output (return_all_outputs) read by an ALU row in the b position
         (p("bb4", true, &["pub", "perm 1 0 1 | 0 0 0 0 | 11 | - - -", "const 2", "mul 5 3", "mul 1 2"]), "capacity-output-b-position-bb4"),
+        // a Merkle chain whose accumulator-exposing row is the LAST row of the Poseidon table: 4 permutation rows (the
+        // `new_start` successor is row 0 through the cyclic wrap), 3 rows (first padding row), 2 rows (wrap again)
+        (p("bb4", false, &["pub", "pub", "pubv 5", "bits 2 3", "perm 1 0 0 | 0 1 0 1 | 11 | - - -", "perm 1 0 0 | 1 0 1 0 | 11 | - - -", "perm 1 1 0 | 6 7 - - | 00 | 3 - -", "perm 0 1 0 | - - - - | 11 | 4 - 0", "mul 18 19", "add 10 11"]), "merkle2-expose-last-row-wrap4-bb4"),
+        (p("bb4", false, &["pub", "pub", "pubv 5", "bits 2 3", "perm 1 0 0 | 0 1 0 1 | 11 | - - -", "perm 1 1 0 | 6 7 - - | 00 | 3 - -", "perm 0 1 0 | - - - - | 11 | 4 - 0", "mul 14 15"]), "merkle2-expose-last-row-pad3-bb4"),
+        (p("bb4", false, &["pub", "pub", "pubv 5", "bits 2 3", "perm 1 1 0 | 0 1 - - | 00 | 3 - -", "perm 0 1 0 | - - - - | 11 | 4 - 0", "mul 10 11"]), "merkle2-expose-last-row-wrap2-bb4"),
         // a private input first seen as an NPO input, claimed by a later ALU row
         (p("bb4", true, &["pub", "priv", "perm 1 0 0 | 1 0 0 0 | 10 | - - -", "mul 1 2"]), "private-first-in-npo-bb4"),
     ]
